@@ -26,7 +26,9 @@ EXPLANATION = (
     "controlled by the spatial distribution; unknown names raise; (R5) culling appends a point and its index under "
     "the same containment test; the weights are areas / area of the convex-hull mask, areas and indices come from "
     "the same tessellation call on that mask; no method of HvsrSpatial other than __init__ writes the object, its "
-    "arguments or module state (no cached culling). NOT decided (and not decidable here): that a clipped Voronoi "
+    "arguments or module state (no cached culling); the distance at which open cells are closed before clipping, as it reaches "
+    "the finite-polygon helper from the weight computation, is a number not below today's 1e6 (a necessary condition for "
+    "boundaries far larger than the array). NOT decided (and not decidable here): that a clipped Voronoi "
     "cell is the nearest-sensor region, non-negativity and unit sum of the weights, invariance under "
     "translation/scaling/order - these depend on scipy/shapely geometry on runtime values.")
 
@@ -35,7 +37,7 @@ RULES = {
     "C14.R2": "weighted mean and reliability-weighted standard deviation accumulators have the stated forms",
     "C14.R3": "all randomness comes from the `rng` object; default_rng() only as fallback",
     "C14.R4": "space-conversion table and back-transform keyed on the right distribution arguments; statistics in between; unknown names raise",
-    "C14.R5": "culling pairs point and index; weights = cell areas / hull area from one tessellation; methods are stateless",
+    "C14.R5": "culling pairs point and index; weights = cell areas / hull area from one tessellation; closing distance >= 1e6; methods are stateless",
 }
 
 
@@ -380,6 +382,7 @@ def _spatial(ck: Checker, prog: Program):
         ck.ok("C14.R5", bv.qualname, "tessellation of the retained sensors, each cell clipped by the mask; indices of the same culling")
     else:
         ck.violation("C14.R5", bv.qualname, "tessellation bookkeeping", "cells and indices do not come from one culling of the sensors against the given mask", loc=bv.loc())
+    ck.guard(_closing_distance, ck, prog, cls)
     # statelessness
     n = 0
     for name, mm in sorted(cls.methods.items()):
@@ -404,3 +407,79 @@ def _spatial(ck: Checker, prog: Program):
         ck.ok("C14.R5", init.qualname, "the object holds only the coordinates", nontrivial=False)
     else:
         ck.violation("C14.R5", init.qualname, "object state", f"the object stores {stores}; expected only the coordinates (no caches)", loc=init.loc())
+
+
+#: the distance at which open cells are closed on today's tree; the property covers coordinates up to ~1e4 array extents
+CLOSING_DISTANCE = 1e6
+
+
+def _closing_distance(ck: Checker, prog: Program, cls):
+    """The rays of the open cells are cut at a fixed distance before they are clipped by the boundary: whatever reaches the
+    finite-polygon helper from the weight computation must be a number at least as large as today's (a smaller one, or the
+    helper's own fallback - the extent of the sensors - leaves part of a large boundary uncovered)."""
+    from ..resolve import Resolver
+    bv = cls.methods["_bounded_voronoi"]
+    fp = cls.methods["_voronoi_finite_polygons_2d"]
+    pos = fp.params.index("radius") if "radius" in fp.params else None
+    if pos is None:
+        raise AnalysisError(f"{fp.qualname}: no closing distance parameter")
+    off = 0 if "staticmethod" in fp.decorators else 1
+
+    def numeric(func, expr, at, depth=0):
+        """Numeric value of an expression of ``func``; parameters are followed to their defaults and to explicit arguments of callers."""
+        if expr is None:
+            return [("none", None, func, at)]
+        R = Resolver(prog, func, inline=False)
+        v = R.value(expr, at)
+        if v.is_number:
+            return [("num", float(v), func, at)]
+        if v == sp.Symbol("None"):
+            return [("none", None, func, at)]
+        if isinstance(v, sp.Symbol) and v.name in func.params and depth < 3:
+            out = []
+            d = func.defaults().get(v.name)
+            if d is not None:
+                out += numeric(func, d, func.node, depth + 1) if not isinstance(d, ast.Constant) else \
+                    [("none" if d.value is None else "num", None if d.value is None else float(d.value), func, func.node)]
+            k = func.params.index(v.name)
+            for g in cls.methods.values():
+                for c in own_nodes(g.node):
+                    if isinstance(c, ast.Call) and call_name(c) == func.name and isinstance(c.func, ast.Attribute):
+                        a = kwarg(c, v.name)
+                        o = 0 if "staticmethod" in func.decorators else 1
+                        if a is None and len(c.args) > k - o >= 0:
+                            a = c.args[k - o]
+                        if a is not None:
+                            out += numeric(g, a, _stmt_of(g, c), depth + 1)
+            if out:
+                return out
+        raise AnalysisError(f"{func.qualname}: the closing distance `{v}` is not a number, a default or an argument of a caller")
+    calls = [c for c in own_nodes(bv.node) if isinstance(c, ast.Call) and call_name(c) == fp.name]
+    if not calls:
+        raise AnalysisError(f"{bv.qualname}: call of {fp.name} not found")
+    n = 0
+    for c in calls:
+        a = kwarg(c, "radius")
+        if a is None and len(c.args) > pos - off >= 0:
+            a = c.args[pos - off]
+        for kind, val, func, at in numeric(bv, a, _stmt_of(bv, c)):
+            n += 1
+            if kind == "num" and val >= CLOSING_DISTANCE:
+                ck.ok("C14.R5", bv.qualname, f"open cells closed at {val:g} (>= {CLOSING_DISTANCE:g})", detail=f"value from {func.qualname}")
+            elif kind == "num":
+                ck.violation("C14.R5", bv.qualname, "closing distance",
+                             f"open cells are closed at {val:g} (from {func.qualname}); a boundary reaching further than that is no longer covered by the cells, "
+                             f"so the weights stop being area fractions (today: {CLOSING_DISTANCE:g})", loc=func.loc(at))
+            else:
+                ck.violation("C14.R5", bv.qualname, "closing distance",
+                             f"no closing distance reaches {fp.name} (from {func.qualname}): it falls back to the extent of the sensors, which a larger boundary exceeds",
+                             loc=func.loc(at))
+    ck.floor("C14.R5", n, 1, "closing distances")
+
+
+def _stmt_of(func, node):
+    from ..model import parent_of
+    cur = node
+    while cur is not None and not isinstance(cur, ast.stmt):
+        cur = parent_of(cur)
+    return cur if cur is not None else func.node
